@@ -19,7 +19,7 @@ Import ListNotations.
 
 Record gentry := mkE { ptr : N; root : bool; marked : bool }.
 
-Definition gslot := slot gentry.
+Notation gslot := (slot gentry).
 
 (* what happened to the registered set, and which finalisers ran *)
 Inductive event :=
